@@ -171,8 +171,9 @@ func c08Sources(r *drv.Run) ([][]byte, map[string]int) {
 // usually, not always, well typed).
 func procProgramSource(rng *gen.Rng, i int) string {
 	pg := newProcGen(rng)
-	stmts := pg.stmts(2, 1+rng.Intn(3), i%2 == 0)
-	if i%2 == 0 {
+	transform := rng.Bool()
+	stmts := pg.stmts(2, 1+rng.Intn(3), transform)
+	if transform {
 		return "set f to transform " + stmts + " end\nreplace all 'a' with f"
 	}
 	return "set p to pattern 'a' begin " + stmts + " end\nfind all p"
